@@ -26,7 +26,9 @@ package keyed
 //@   immutable ctorCb, exitedCbs, releaseDelay, backoffFactory, runningRoutine.k, runningRoutine.key, runningRoutine.routine, runningRoutine.data, runningRoutine.retryBo
 //@   records runningRoutine via k
 //@   inv K0[C06]: this.routines != nil && this.ctorCb != nil
-//@   inv K1[C06]: forall key: any {this.routines[key]} :: in(this.routines, key) ==> this.routines[key] != nil && this.routines[key].k == this && this.routines[key].key == key
+//@   inv K1[C06]: forall key: any {this.routines[key]} :: in(this.routines, key) ==> this.routines[key] != nil
+//@   inv K2[C06]: forall key: any {this.routines[key]} :: in(this.routines, key) ==> this.routines[key].k == this
+//@   inv K3[C06]: forall key: any {this.routines[key]} :: in(this.routines, key) ==> this.routines[key].key == key
 //
 //@ ginv E0: forall ch: ref {xowner(ch)} :: xowner(ch) != nil ==> ch != nil && allocated(ch) && madein(ch, "(*runningRoutine).start")
 //@ ginv E1: forall ch: ref {xowner(ch)} :: xowner(ch) != nil && closed(ch) ==> xrun(ch) == nil && (pred(ch) != nil ==> closed(pred(ch)))
@@ -98,8 +100,8 @@ package keyed
 //@   props C06 C07 C13
 //@   opt frame = skip
 //@   requires k != nil
-//@   ensures present: result1 == old(in(k.routines, key)) && in(k.routines, key) && k.routines[key].deferRemove == nil
-//@   ensures keepretry: !start && old(in(k.routines, key)) ==> k.routines[key].deferRetry == old(k.routines[key].deferRetry)
+//@   assert unlock 1: present: existed == csold(in(k.routines, key)) && in(k.routines, key) && k.routines[key].deferRemove == nil && v == k.routines[key]
+//@   assert unlock 1: keepretry: !start && csold(in(k.routines, key)) ==> k.routines[key].deferRetry == csold(k.routines[key].deferRetry)
 //
 //@ func (*Keyed).RemoveKey
 //@   props C06 C07 C13
